@@ -333,7 +333,7 @@ def cross_contract(run):
 
 def main(run: common.Run):
     tier = run.tier
-    n = 2 if tier == "quick" else 10
+    n = 2 if tier == "quick" else 40
     run.bounds = {"handmade_contracts": 6, "generated_contracts": n, "tests_per_contract": "2..4", "orders": "all permutations (<= 3 tests) / every 4th",
                   "uid_stubs": ["const", "counter"], "solver_cap_s": 20 if tier == "quick" else 60}
     run.functions_encoded = ["halmos.__main__.run_contract / run_tests / run_test / run_message", "halmos.sevm.Path.extend_path / branch",
